@@ -323,24 +323,53 @@ def one_dag(rng, res, intern, stream, root, label, shapes):
       res.failures.append(Failure(None, f"C05 {label}: in-build flag left set after nested probe", {}))
 
 
+class BadReprExc:
+  def __repr__(self):
+    raise RuntimeError("repr raises an Exception")
+
+
+class BadReprExit:
+  def __repr__(self):
+    raise SystemExit("repr raises SystemExit")
+
+
 def formatting_failure_case(res):
-  """The diagnostic itself cannot be formatted: the original exception must escape unchanged."""
-  cfg = fdl.Config(l2.fa, BadRepr())
-  orig = [None]
-  def factory():
-    orig[0] = ValueError("boom while formatting fails")
-    return orig[0]
-  out = crash_build(cfg, cfg, factory)
-  res.evaluations += 1
-  res.count("formatting-failure")
-  ok = out[0] == "exc" and (out[1] is orig[0] or isinstance(out[1], (ValueError, BaseOnly)))
-  if not ok or building._state.in_build:  # pylint: disable=protected-access
-    res.failures.append(Failure(None, "C05 formatting failure: unexpected outcome "
-                                f"{type(out[1]).__name__ if out[0] == 'exc' else 'ok'}", {}))
-  try:
-    fdl.build(fdl.Config(l2.fa, 1))
-  except Exception as e:  # pylint: disable=broad-except
-    res.failures.append(Failure(None, f"C05: build after a formatting failure raised {type(e).__name__}", {}))
+  """The diagnostic itself cannot be formatted (an argument whose __repr__ raises an Exception, a BaseException
+  that is not an Exception, SystemExit; passed positionally, by keyword, inside a container): what escapes must
+  still be an instance of the ORIGINAL exception's class whose message begins with the original message."""
+  for bad in (BadRepr, BadReprExc, BadReprExit):
+    for place in ("positional", "keyword", "in-list", "in-child"):
+      if place == "positional":
+        cfg = fdl.Config(l2.fa, bad())
+      elif place == "keyword":
+        cfg = fdl.Config(l2.fd, x=1, y=bad())
+      elif place == "in-list":
+        cfg = fdl.Config(l2.fd, x=[0, {"k": bad()}])
+      else:
+        cfg = fdl.Config(l2.fd, x=fdl.Config(l2.fa, 1), z=bad())
+      orig = [None]
+      def factory():
+        orig[0] = ValueError("boom while formatting fails")
+        return orig[0]
+      out = crash_build(cfg, cfg, factory)
+      res.evaluations += 1
+      res.count("formatting-failure")
+      what = f"C05 formatting failure ({bad.__name__}, {place})"
+      if out[0] != "exc":
+        res.failures.append(Failure(None, f"{what}: the build succeeded although the callable raised", {}))
+      elif not isinstance(out[1], ValueError):
+        res.failures.append(Failure(None, f"{what}: {type(out[1]).__name__} escaped instead of the callable's own "
+                                    "ValueError", {"bad": bad.__name__, "place": place}))
+      elif not str(out[1]).startswith("boom while formatting fails"):
+        res.failures.append(Failure(None, f"{what}: message {str(out[1])[:60]!r} does not begin with the original",
+                                    {"bad": bad.__name__, "place": place}))
+      if building._state.in_build:  # pylint: disable=protected-access
+        res.failures.append(Failure(None, f"{what}: the in-build flag is still set", {}))
+        building._state.in_build = False  # pylint: disable=protected-access
+      try:
+        fdl.build(fdl.Config(l2.fa, 1))
+      except Exception as e:  # pylint: disable=broad-except
+        res.failures.append(Failure(None, f"C05: build after a formatting failure raised {type(e).__name__}", {}))
 
 
 def run(tier: str, seed: int) -> Result:
